@@ -119,6 +119,21 @@ PROPS["C15"] = dict(
     note="Trusted: asyncio.Lock, SQLite transactions, the name-based classification of mutating callees, solvers, pyvc.",
 )
 
+PROPS["C10"] = dict(
+    modules=["contracts.sched_sql", "contracts.C12_limits", "contracts.C10_dispatch"],
+    decided=["the dispatch query is exact over the cached columns (both directions)", "coherence of _ready / _has_hash: "
+             "every row event in the read footprint has a trigger flagging the affected steps; only the recomputation "
+             "clears the flag; recomputation precedes selection in the same transaction",
+             "local equations of _safe / _implied_need", "phase end: job_loop returns only after an empty answer with both "
+             "task tables empty and no await in between", "termination: accepted defers strictly increase defer_count up to the cap"],
+    undecided=["that no wake-up of the job loop is lost (interleaving property)", "the recursive propagation of _safe / "
+               "_implied_need (assumed closures)"],
+    assumptions=["SQLite fires per-row AFTER triggers as documented, recursive triggers off"],
+    level="SQL text of the dispatch query, triggers and recomputation statements is parsed from the working tree and "
+          "proved against spec predicates / coverage tables; job_loop and mark_completed are executed symbolically.",
+    note="Trusted: SQLite trigger semantics, the recursive closures, asyncio scheduling between awaits, solvers, pyvc.",
+)
+
 NOT_BUILT = {}
 
 _loaded = False
